@@ -86,6 +86,10 @@ func c09Stress(w *core.Worker, i int) {
 				case k < 3:
 					op.kind = "inc"
 					prog = fmt.Sprintf("UPDATE counter SET n = n + 1, m = m + 1; INSERT INTO log VALUES (%d, %d); SELECT n FROM counter;", c, s)
+				case k == 3:
+					// plain read first, then the change: the table must be read again under the exclusive lock
+					op.kind = "incsel"
+					prog = fmt.Sprintf("SELECT n FROM counter; UPDATE counter SET n = n + 1, m = m + 1; INSERT INTO log VALUES (%d, %d); SELECT n FROM counter;", c, s)
 				case k < 5:
 					op.kind = "incfu"
 					prog = fmt.Sprintf("SELECT n FROM counter FOR UPDATE; UPDATE counter SET n = n + 1, m = m + 1; INSERT INTO log VALUES (%d, %d); SELECT n FROM counter;", c, s)
@@ -127,7 +131,7 @@ func c09Stress(w *core.Worker, i int) {
 		if op.code == 8 {
 			timeouts++
 		}
-		if op.code == 0 && (op.kind == "inc" || op.kind == "incfu" || op.kind == "inc-short") {
+		if op.code == 0 && (op.kind == "inc" || op.kind == "incfu" || op.kind == "incsel" || op.kind == "inc-short") {
 			committed++
 			wantLog[fmt.Sprintf("%d,%d", op.client, op.seq)] = true
 		}
@@ -207,7 +211,7 @@ func c09Stress(w *core.Worker, i int) {
 			continue
 		}
 		switch op.kind {
-		case "inc", "incfu", "inc-short":
+		case "inc", "incfu", "incsel", "inc-short":
 			ls := strings.Split(op.out, "\n")
 			v, err := strconv.Atoi(strings.TrimSpace(ls[len(ls)-1]))
 			if err != nil {
@@ -273,7 +277,7 @@ type schedEvent struct {
 }
 
 var c09Scenarios = [][]string{
-	{"W", "W"}, {"W", "R"}, {"R", "W"}, {"Wfu", "W"}, {"W", "Wrb"}, {"Wfu", "R"}, {"W", "W", "R"}, {"R", "R", "W"},
+	{"W", "W"}, {"W", "R"}, {"R", "W"}, {"Wfu", "W"}, {"W", "Wrb"}, {"Wfu", "R"}, {"W", "W", "R"}, {"R", "R", "W"}, {"Wsel", "W"},
 }
 
 func c09Prog(kind string) string {
@@ -284,6 +288,8 @@ func c09Prog(kind string) string {
 		return "SELECT n FROM counter FOR UPDATE; UPDATE counter SET n = n + 1, m = m + 1;"
 	case "Wrb":
 		return "UPDATE counter SET n = n + 1, m = m + 1; ROLLBACK;"
+	case "Wsel":
+		return "SELECT n FROM counter; UPDATE counter SET n = n + 1, m = m + 1;"
 	}
 	return "SELECT n, m FROM counter;"
 }
@@ -474,7 +480,7 @@ func runSchedule(w *core.Worker, scen []string, choose func(dec int, enabled []i
 		if ro.code != 0 {
 			viol(fmt.Sprintf("%s ended with exit code %d", ro.name, ro.code))
 		}
-		if (ro.kind == "W" || ro.kind == "Wfu") && ro.code == 0 {
+		if (ro.kind == "W" || ro.kind == "Wfu" || ro.kind == "Wsel") && ro.code == 0 {
 			committed++
 		}
 		if ro.kind == "R" && ro.code == 0 {
